@@ -303,7 +303,7 @@ func scenarioConfigs() []*config {
 			Workers:   []workerSpec{{Name: "w1", Stage: 4, MaxCalls: 4, Busy: []string{"ok"}}},
 		},
 		{
-			Name: "S23b-browse-sibling-invocations", Props: []string{"C01", "C06", "C14"},
+			Name: "S23b-browse-sibling-invocations", Props: []string{"C01", "C14"},
 			Doc:         "as S23, but the three operations belong to three sibling invocations (different correlated-invocations ids, priorities 1, 3, 2: the root's queued-children heap is not a sorted list); the operator browses once before the worker arrives",
 			Predeclared: pre0, MaxTicks: 1, Bounds: b1, Shards: 2,
 			Clients: []clientSpec{
